@@ -100,7 +100,11 @@ const IDS: [u16; 3] = [0, 0x1234, 0xffff];
 
 pub fn run(ctx: Ctx) -> ! {
     let world = World::new(vec![]);
-    if ctx.replay_case().is_some() {
+    if let Some(case) = ctx.replay_case() {
+        if case["family"].as_str() == Some("oversize-answers") {
+            let (w4, _) = crate::c04::world_for(4);
+            replay(ctx, &w4, verdict, RULE);
+        }
         replay(ctx, &world, verdict, RULE);
     }
     // Servers without RRL (a rate-limited response is legitimately missing
@@ -196,6 +200,28 @@ pub fn run(ctx: Ctx) -> ! {
     }
     ctx.set_extra("family_relayed_tsig_requests", json!(relayed.len()));
     drive::run_reqs(&ctx, &world, &slots, &relayed, false, verdict);
+    // Answers that do not fit the transport: queries against C04's size-sweep
+    // zone for RRsets that exceed 512 octets and 65 535 octets (truncation
+    // over UDP, the SERVFAIL fallback over TCP), with RD clear and set.
+    {
+        let (w4, queries) = crate::c04::world_for(4);
+        let mut big = Vec::new();
+        let pick = queries.iter().filter(|q| q.scenario == "oversize").chain(queries.iter().filter(|q| q.scenario == "txt" && q.upper_bound > 4000).take(30));
+        for q in pick {
+            for flags in [0x0000u16, 0x0100] {
+                for deco in [crate::zones::Deco::Plain, crate::zones::Deco::Edns { size: 4096, dnssec_ok: false }] {
+                    big.push(families::Req {
+                        family: "oversize-answers",
+                        desc: format!("{} {} type{} flags={flags:#06x} {:?}", q.scenario, qvlib::wire::name_text(&q.qname), q.qtype, deco),
+                        bytes: crate::zones::build_query(0x0303, flags, &q.qname, q.qtype, c::IN, deco),
+                    });
+                }
+            }
+        }
+        let slots4 = vec![Slot::new(&w4, "c04", Cfg::plain(4096, true))];
+        ctx.set_extra("family_oversize_answers_requests", json!(big.len()));
+        drive::run_reqs(&ctx, &w4, &slots4, &big, false, verdict);
+    }
     if !ctx.quick() {
         drive::run_reqs(&ctx, &world, &slots, &muts, true, verdict);
         let pair_slots = vec![Slot::new(&world, "std", Cfg::plain(1232, true))];
